@@ -38,6 +38,49 @@ Definition insert_at (dep : nat) (v : sval) (l : list sval) : list sval := first
 (** Vec::truncate to the bottom [keep] values *)
 Definition keep_bottom (keep : nat) (l : list sval) : list sval := skipn (length l - keep) l.
 
+(** * Iterating modifiers (rows, each, inventory, reduce, scan, fold, table, tuples, group,
+    partition, spawn, pool): the array side is abstract.  Three reserved oracle ids of [psem]
+    decide, from the visible fill and the popped values, how many times the operand runs
+    ([ITER_N]), which [sa] values it is given at step i (from the popped values and everything
+    produced so far: [ITER_ARG]) and what is pushed at the end ([ITER_OUT]); the model fixes what
+    the implementations share: the A argument values are popped first, every step pushes exactly
+    [sa] values for the operand and pops its [so] results, the operand runs in the caller's fill
+    context, and a failure of the operand is the failure of the whole. *)
+Definition ITER_N : N := 900001.
+Definition ITER_ARG : N := 900002.
+Definition ITER_OUT : N := 900003.
+Definition mk_tag (mk : modk) : Z :=
+  match mk with
+  | MReduce => 1 | MScan => 2 | MFold => 3 | MRows => 4 | MEach => 5 | MInventory => 6
+  | MTable => 7 | MTuples => 8 | MGroup => 9 | MPartition => 10 | MSpawn => 11 | MPool => 12
+  | _ => 0 end%Z.
+(** values popped / pushed by the modifier as a whole (run_prim.rs / algorithm/{zip,reduce,loops,table,groups}.rs) *)
+Definition iter_ao (mk : modk) (sg : sig) : option (nat * nat) :=
+  match mk with
+  | MReduce | MScan => Some (Nat.max (sa sg - so sg) 1, so sg)
+  | MRows | MEach | MInventory | MTable | MTuples => Some (sa sg, so sg)
+  | MFold => if Nat.eqb (sa sg) 0 && Nat.eqb (so sg) 0 then None
+             else if sa sg <=? so sg then Some (sa sg, so sg + 1 - sa sg) else Some (sa sg, so sg)
+  | MGroup | MPartition => Some (Nat.max (sa sg) 1 + 1, so sg)
+  | MSpawn | MPool => Some (sa sg, 1)
+  | _ => None end.
+
+Fixpoint iter_loop (body : rt -> res) (argsof : Z -> list sval -> option (list sval)) (fa fo : nat)
+    (k : nat) (i : Z) (cur : rt) (acc : list sval) {struct k} : res * list sval :=
+  match k with
+  | O => (Ok cur, acc)
+  | S k =>
+      match argsof i acc with
+      | Some l =>
+          if negb (Nat.eqb (length l) fa) then (Unk, acc) else
+          match body (set_stk cur (l ++ stk cur)) with
+          | Ok s2 =>
+              if negb (need fo s2) then (Err false s2, acc) else
+              iter_loop body argsof fa fo k (i + 1)%Z (set_stk s2 (skipn fo (stk s2))) (acc ++ firstn fo (stk s2))
+          | r => (r, acc) end
+      | None => (Err false cur, acc) end
+  end.
+
 Section Exec.
   Variable pknown : N -> list sval -> bool.     (* primitive applications the instance interprets; others are outside the model *)
   Variable psem : N -> option (list sval) -> list sval -> option (list sval).
@@ -48,6 +91,27 @@ Section Exec.
 
   Definition run_list (ex : node -> rt -> res) (ns : list node) (s : rt) : res :=
     fold_left (fun r n => bind r (ex n)) ns (Ok s).
+
+
+  Definition iter_exec (body : rt -> res) (tag : Z) (na no fa fo : nat) (s : rt) : res :=
+    if negb (need na s) then Err false s else
+    let vals := firstn na (stk s) in
+    let cur := set_stk s (skipn na (stk s)) in
+    let ctx := fillctx s in
+    let hdr := [SInt tag; SInt (Z.of_nat fa); SInt (Z.of_nat fo)] in
+    if negb (pknown ITER_N (hdr ++ vals)) then Unk else
+    match psem ITER_N ctx (hdr ++ vals) with
+    | Some [SInt n] =>
+        match iter_loop body (fun i acc => psem ITER_ARG ctx (hdr ++ SInt i :: SInt (Z.of_nat na) :: vals ++ acc))
+                fa fo (Z.to_nat n) 0%Z cur [] with
+        | (Ok s2, acc) =>
+            match psem ITER_OUT ctx (hdr ++ SInt (Z.of_nat na) :: vals ++ acc) with
+            | Some outs => if Nat.eqb (length outs) no then Ok (set_stk s2 (outs ++ stk s2)) else Unk
+            | None => Err false s2 end
+        | (r, _) => r end
+    | Some _ => Unk
+    | None => Err false cur
+    end.
 
   Fixpoint exec (fuel : nat) (n : node) (s : rt) {struct fuel} : res :=
     match fuel with O => OOF | S fuel =>
@@ -236,6 +300,14 @@ Section Exec.
             if negb (need k s) then Err false s else
             let vals := firstn k (stk s) in
             bind (ex f (set_stk s (skipn k (stk s)))) (fun s2 => Ok (set_stk s2 (vals ++ stk s2)))
+        | (MReduce | MScan | MFold | MRows | MEach | MInventory | MTable | MTuples
+           | MGroup | MPartition), [(sg, f)] =>
+            match iter_ao mk sg with
+            | Some (na, no) => iter_exec (ex f) (mk_tag mk) na no (sa sg) (so sg) s
+            | None => Unk end
+        | (MSpawn | MPool), [(sg, _)] =>
+            (* the operand runs on another thread's stacks: here only the arguments go and a handle comes *)
+            iter_exec (fun s => Unk) (mk_tag mk) (sa sg) 1 0 0 s
         | _, _ => Unk
         end
     end end.
@@ -265,13 +337,26 @@ Definition zsem (id : N) (_ : option (list sval)) (args : list sval) : option (l
   | 18%N, [SInt a; SInt b] => Some [b2z (Z.leb a b)]
   | 19%N, [SInt a] => Some [SInt (Z.abs a)]
   | 20%N, [SInt a] => Some [SInt (Z.sgn a)]
+  (* iteration over scalars: rows / each / table of scalars run the operand once on the scalars
+     themselves; reducing a scalar returns it without running the operand *)
+  | 900001%N, SInt tag :: _ => Some [SInt (if Z.eqb tag 1 then 0 else 1)]
+  | 900002%N, SInt _ :: SInt _ :: SInt _ :: SInt _ :: SInt na :: rest => Some (firstn (Z.to_nat na) rest)
+  | 900003%N, SInt tag :: SInt _ :: SInt _ :: SInt na :: rest =>
+      Some (if Z.eqb tag 1 then firstn (Z.to_nat na) rest else skipn (Z.to_nat na) rest)
   | _, _ => None
   end.
 Definition is_int (v : sval) : bool := match v with SInt _ => true | SOpq _ => false end.
 Definition zknown (id : N) (args : list sval) : bool :=
-  (1 <=? id)%N && (id <=? 20)%N &&
-  ((id <=? 4)%N || forallb is_int args ||
-   (N.eqb id 12 && match args with [_; c] => is_int c | _ => false end)).
+  ((1 <=? id)%N && (id <=? 20)%N &&
+   ((id <=? 4)%N || forallb is_int args ||
+    (N.eqb id 12 && match args with [_; c] => is_int c | _ => false end))) ||
+  (N.eqb id ITER_N &&
+   match args with
+   | SInt tag :: SInt fa :: SInt fo :: x :: vals =>
+       forallb is_int (x :: vals) &&
+       (Z.eqb tag 4 || Z.eqb tag 5 || Z.eqb tag 7 ||
+        (Z.eqb tag 1 && Z.eqb fa 2 && Z.eqb fo 1 && match vals with [] => true | _ => false end))
+   | _ => false end).
 Definition no_arr (_ : bool) (_ : list sval) : option sval := None.
 Definition no_unpack (_ : nat) (_ : bool) (_ : sval) : option (list sval) := None.
 Definition no_fmt (_ : list sval) : sval := SOpq 1.
